@@ -35,7 +35,8 @@ pub fn run(o: &Opts) -> Res<()> {
             let mask = o.num("mask", seed);          // bit i set: peer i (i > 0) goes silent at some time
             let given_all = o.num("given", seed % 2) == 1;
             let sendfail = o.num("sendfail", 0) == 1;
-            run_scenario(&out, seed, move |net| maintenance(net, seed, peers, hours, mask, given_all, sendfail))?
+            let strangers = o.num("strangers", 0) == 1;
+            run_scenario(&out, seed, move |net| maintenance(net, seed, peers, hours, mask, given_all, sendfail, strangers))?
         }
         "boot" => run_scenario(&out, seed, move |net| bootstrap_scn(net, seed))?,
         "early" => run_scenario(&out, seed, move |net| early_search(net, seed))?,
@@ -578,7 +579,7 @@ async fn lookup(net: Net, seed: u64, kind: String, n: usize, age_min: u64) {
 
 /// C11 / C18: one real node and `npeers` scripted contacts, each always answering or going silent at some time; the node's
 /// contacts are sampled every 5 virtual seconds for `minutes` minutes, with and without interleaved searches.
-async fn maintenance(net: Net, seed: u64, npeers: usize, minutes: u64, mask: u64, given_all: bool, sendfail: bool) {
+async fn maintenance(net: Net, seed: u64, npeers: usize, minutes: u64, mask: u64, given_all: bool, sendfail: bool, strangers: bool) {
     let mut rng = StdRng::seed_from_u64(seed);
     let my_id = rand_id(&mut rng);
     let mut nodes = oracle_universe(&mut rng, npeers, false, None);
@@ -599,6 +600,18 @@ async fn maintenance(net: Net, seed: u64, npeers: usize, minutes: u64, mask: u64
             plan.push(json!({"id": bytes_json(&vn.id), "addr": addr_json(&vn.addr), "mode": "Answer", "t": 0}));
         }
     }
+    // "strangers": the two bootstrap contacts do not know each other -- nobody ever names the second contact, which itself names
+    // nobody and answers slowly, so that its first answer arrives as that of a complete newcomer while the nodes named by the first
+    // contact are still questionable
+    if strangers && nodes.len() >= 3 {
+        let all: Vec<(Id, SocketAddr)> = nodes.iter().map(|n| (n.id, n.addr)).collect();
+        for (i, vn) in nodes.iter_mut().enumerate() {
+            vn.truthful = false;
+            vn.names_extra = if i == 1 { vec![] } else { all.iter().enumerate().filter(|(j, _)| *j != 1 && *j != i).map(|(_, x)| *x).collect() };
+        }
+        nodes[1].mode = Mode::DelayMs(700);
+        plan[1]["mode"] = json!("Slow");
+    }
     let oracle = Arc::new(Mutex::new(OracleNet::new(nodes)));
     oracle.lock().unwrap().answer_delay_max = 300;
     // in every second run the network forgets its dead: two minutes after a peer fell silent the others stop naming it
@@ -612,7 +625,7 @@ async fn maintenance(net: Net, seed: u64, npeers: usize, minutes: u64, mask: u64
     net.log(json!({"ev":"Universe","nodes":oracle.lock().unwrap().universe_json()}));
     net.add_scripted(&addrs, Box::new(oracle.clone()));
     // the node is given one or all contacts; the others it learns by hearsay from the first (which names the closest 8)
-    let given: Vec<SocketAddr> = if given_all { addrs.clone() } else { vec![addrs[0]] };
+    let given: Vec<SocketAddr> = if strangers { vec![addrs[0], addrs[1]] } else if given_all { addrs.clone() } else { vec![addrs[0]] };
     if sendfail {
         // datagrams towards the last contact cannot be sent at all (it is only known by hearsay)
         let bad = *addrs.last().unwrap();
